@@ -148,11 +148,27 @@ func probeHistory(name string, inputs []string) *core.History {
 	return h
 }
 
+// c05Fixed are fixed histories that agree between the two modes on the unchanged tree (unlike the probes above):
+// special forms around the register rewrite that the random grammar does not produce.
+var c05Fixed = [][]string{
+	{`func sum(n) { t = 0; for n := n { t = t + n }; t }`, `println(sum(4))`, `println(sum(0))`},
+	{`func cnt(n) { t = 0; for n := 2:n { t = t + n }; t }`, `println(cnt(5))`},
+	{`func idx(a, x) { for i = len(a) { if a[i] == x { return i } }; -1 }`, `println(idx([5, 6, 7], 6), idx([5, 6, 7], 9))`},
+	{`func eqs(x, y) { [x == y, y == x, 3 == x, x == 3, x != y, 2 != y] }`, `println(eqs(3, 3), eqs(3, 2))`},
+	{`func cmp3(x) { t = 0; for i = 4 { if 2 == i { t = t + 10 }; if i == x { t = t + 1 }; if x == i { t = t + 100 } }; t }`, `println(cmp3(2), cmp3(7))`},
+}
+
 func (c05) Generate(r *core.Rng, run int, tier string) *core.History {
 	if run < len(c05Probes) {
 		return probeHistory(c05Probes[run].name, c05Probes[run].inputs)
 	}
 	run -= len(c05Probes)
+	if run < len(c05Fixed) {
+		h := probeHistory("", c05Fixed[run])
+		delete(h.Strs, "probe")
+		return h
+	}
+	run -= len(c05Fixed)
 	nSweep := 120
 	if tier == "thorough" {
 		nSweep = c05SweepSize
